@@ -421,7 +421,7 @@ def gen_source(rng):
 
 def gen_parser_cfg(rng):
     v = rng.choice(['1.0', '2.0', '3.0', '3.1', '3.1'])
-    cfg = {'v': v, 'strict': rng.random() < 0.8, 'ns': rng.random() < 0.7}
+    cfg = {'v': v, 'strict': rng.random() < 0.8, 'ns': rng.choice([True, True, True, True, False, False, 'err'])}
     if v in ('1.0', '2.0') and rng.random() < 0.2:
         cfg['compat'] = True
     if v != '1.0' and rng.random() < 0.3:
@@ -468,7 +468,8 @@ def gen_case(rng, tier):
             ops.append({'op': 'eval', 'p': p, 'src': g.expr(rng.choice([0, 1, 2])), 'kind': 'collation',
                         'locale_fault': sorted(set(rng.randint(1, 4) for _ in range(rng.choice([0, 1, 2])))),
                         'probes': probes})
-    return {'config': {'parsers': parsers, 'installed': installed, 'files': files, 'reclimit': reclimit}, 'ops': ops}
+    return {'config': {'parsers': parsers, 'installed': installed, 'files': files, 'reclimit': reclimit,
+                       'shared_ctx': rng.random() < 0.3}, 'ops': ops}
 
 
 def simplify(case):
@@ -539,6 +540,8 @@ def make_parser(cfg):
     kw = {'strict': cfg.get('strict', True)}
     if cfg.get('ns'):
         kw['namespaces'] = {'p': X.NS}
+    if cfg.get('ns') == 'err':
+        kw['namespaces'] = {'p': X.NS, 'err': 'urn:other', 'fn': 'urn:not-fn', 'xs': 'http://www.w3.org/2001/XMLSchema'}
     if cfg['v'] != '1.0':
         if cfg.get('compat'):
             kw['compatibility_mode'] = True
@@ -594,6 +597,7 @@ def run_case(case, world):
         pristine[(pk, i)] = val if st == 'ok' else None
 
     parsers = [make_parser(pc) for pc in cfg['parsers']]
+    shared_ctx = [None]
     if cfg.get('reclimit'):
         sys.setrecursionlimit(cfg['reclimit'])
     world.start_monitoring()
@@ -624,7 +628,7 @@ def run_case(case, world):
         src = op['src']
         world.event(('op', idx, kind, src[:80]))
         world.steps = 0
-        world.step_budget = 5_000_000
+        world.step_budget = 60_000_000
         world.task = 'main'
         shape.append(kind + ':' + op.get('kind', ''))
         try:
@@ -666,7 +670,13 @@ def run_case(case, world):
                     if variables:
                         variables['u'] = elementpath.datatypes.UntypedAtomic('12')
                     tk = p.parse(src)
-                    ctx = elementpath.XPathContext(root, variables=variables)
+                    if op.get('io') and case['config'].get('shared_ctx'):
+                        # one dynamic context for all the I/O evaluations of the history (its resource caches persist)
+                        if shared_ctx[0] is None:
+                            shared_ctx[0] = elementpath.XPathContext(root)
+                        ctx = shared_ctx[0]
+                    else:
+                        ctx = elementpath.XPathContext(root, variables=variables)
                     if op.get('lazy'):
                         res = [canon(x) for x in tk.select_results(ctx)]
                     else:
@@ -686,7 +696,7 @@ def run_case(case, world):
             stop = True
         except SimHang as e:
             violate('HANG', 'hang:%s' % op.get('kind'), 'operation %d (%r) exceeded %d line events: %s' % (
-                idx, src[:120], 5_000_000, e), ['kind:' + op.get('kind', '?')])
+                idx, src[:120], 60_000_000, e), ['kind:' + op.get('kind', '?')])
             stop = True
         stats['steps'] += world.steps
         if stop:
